@@ -52,7 +52,7 @@ class C06(OptEngineBase):
     PROBES = [
         "fixed_isolated", "all_fixed", "none_fixed", "fixed_landmark", "unfix_between_calls",
         "first_vertex_not_min_id", "nan_outcome", "diverged_outcome", "singular_natural", "solver_raise_fired",
-        "i3_checked", "i3_skipped_illcond", "stdout_fail_fired", "multi_component", "singular_raised_as_error", "i3_trajectory_step", "aliased_pose_objects", "fixed_satellite_pose",
+        "i3_checked", "i3_skipped_illcond", "stdout_fail_fired", "multi_component", "singular_raised_as_error", "i3_trajectory_step", "aliased_pose_objects", "fixed_satellite_pose", "fixed_vertex_moved_by_user_between_calls",
     ]
 
     # ------------------------------------------------------------------ generate
@@ -94,7 +94,10 @@ class C06(OptEngineBase):
             r = rng.random()
             if k == n_ops - 1 and not any(o["op"] == "optimize" for o in ops):
                 r = 1.0
-            if r < 0.25:
+            if r < 0.07:
+                # the user re-positions a vertex between calls (fixed or free): v.pose = v.pose [+] delta
+                ops.append({"op": "move_vertex", "v": rng.choice(ids), "delta": [rng.gauss(0, 0.5) for _ in range(6)]})
+            elif r < 0.25:
                 ops.append({"op": "set_fixed", "v": rng.choice(ids), "value": rng.random() < 0.6})
             elif r < 0.35:
                 ops.append({"op": "query"})
@@ -160,6 +163,19 @@ class C06(OptEngineBase):
                         model.discard(v.id)
                     sig_ops.append("set_fixed")
                     log.note("set_fixed", [v.id, bool(op["value"])])
+                elif kind == "move_vertex":
+                    v = by_id.get(op["v"])
+                    if v is None:
+                        sig_ops.append("move_vertex:skip")
+                        continue
+                    d = np.array(op["delta"][: v.pose.COMPACT_DIMENSIONALITY], dtype=np.float64)
+                    if v.pose.COMPACT_DIMENSIONALITY == 6:
+                        d[3:] *= 0.3
+                    v.pose = v.pose + d
+                    if not dry and v.id in model and optimized_before:
+                        res.probe("fixed_vertex_moved_by_user_between_calls")
+                    sig_ops.append("move_vertex")
+                    log.note("move_vertex", [v.id])
                 elif kind == "query":
                     c = g.calc_chi2()
                     log.note("query", repr(float(c)))
